@@ -215,6 +215,10 @@ func (p *Prog) trustingCalls(e entry) []ssa.CallInstruction {
 		if _, ok := c.(*ssa.Defer); ok {
 			continue
 		}
+		if _, ok := c.Common().Value.(*ssa.Builtin); ok {
+			// len / append / copy / ... on the layout's lists compute values, they are not stages that act on the layout
+			continue
+		}
 		sink := false
 		for _, a := range callArgs(c) {
 			if fromParams(a) {
